@@ -30,8 +30,8 @@ type Model struct {
 	Orphaned map[string]bool
 	// OrphanVals: leaves an orphan delete left on the device (the orphaned intent ruled them and no live intent defines them)
 	OrphanVals map[string]*MLeaf
-	Touched  map[string]world.Path // list entries some intent ever touched
-	R0       map[string]*world.Leaf
+	Touched    map[string]world.Path // list entries some intent ever touched
+	R0         map[string]*world.Leaf
 	// PrevWinners: choice winners before the transaction being judged (set by Hist.Step; diagnostics for C08 items)
 	PrevWinners map[string]string
 }
